@@ -97,7 +97,8 @@ fn node_spec(c: &Config, i: usize) -> NodeSpec {
         n.class = 6;
     }
     if c.low_class_node == Some(i) {
-        n.class = 7 + r;
+        // both ends of the 1..=127 range as well as an interior value (round 7: an exclusive upper bound in the BMCA's range test)
+        n.class = if r % 2 == 1 { 127 } else if r == 0 { 7 } else { 1 };
     }
     n.slave_only = c.slave_only_node == Some(i);
     n.ports = (0..c.topo.ports[i]).map(|p| PortSpec { log_sync: 3, master_only: c.master_only.contains(&(i, p)), receipt_timeout: if c.receipt_timeout == 0 { 3 } else { c.receipt_timeout }, ..Default::default() }).collect();
